@@ -160,7 +160,118 @@ func (c *cliEnv) editEventMulti(tw *TraceWriter, label string, inputs []string, 
 	}
 }
 
+// an edit that takes a second tree, or delivers one: the event carries it as Post2 (graft, merge, subtree)
+func (c *cliEnv) editEvent2(tw *TraceWriter, label string, input string, op string, args map[string]interface{}, cmdline []string,
+	second *PTree, obj2 string, outIsSecond bool) {
+	pre := project(mustParse(input), ProjOpt{})
+	tw.emit(&Event{Ev: "reset", Case: label, Op: "Init", Obj: "a", Ok: true, Post: pre, Args: map[string]interface{}{"cli": strings.Join(cmdline, " ")}})
+	out, rc, hung := c.run(cmdline...)
+	ev := &Event{Ev: "op", Case: label, Op: op, Obj: "a", Args: args}
+	switch {
+	case hung:
+		ev.Panic, ev.Err = true, "the command did not return"
+	case rc != 0:
+		ev.Ok, ev.Err = false, fmt.Sprintf("exit status %d", rc)
+	default:
+		ts, err := parseNewickLines(out)
+		if err != nil || len(ts) != 1 {
+			ev.Panic, ev.Err = true, fmt.Sprintf("output is not one Newick tree: %v", err)
+			break
+		}
+		ev.Ok = true
+		if outIsSecond {
+			// the input is left as it was (it is a file), the output is the second object
+			ev.Post = pre
+			ev.Obj2, ev.Post2 = obj2, project(ts[0], ProjOpt{})
+		} else {
+			ev.Post = project(ts[0], ProjOpt{})
+			ev.Obj2, ev.Post2 = obj2, second
+		}
+	}
+	tw.emit(ev)
+}
+
+// C15 through the commands: graft, merge, repopulate, collapse single, subtree
+func cliC15(c *cliEnv, r *rand.Rand, tw *TraceWriter, label string, maxT int) {
+	gp := defaultGen()
+	gp.MinTips, gp.MaxTips = 4, maxT
+	gp.InnerNames = 0
+	gp.Comments = 0
+	fresh := func(rooted, minT, maxTips int, prefix string) *STree {
+		g := gp
+		g.Rooted, g.MinTips, g.MaxTips, g.Prefix = rooted, minT, maxTips, prefix
+		return genSTree(r, &g)
+	}
+	switch r.Intn(5) {
+	case 0: // graft -i ref -c graft -l tip
+		s := genSTree(r, &gp)
+		all := s.tipNames()
+		tip := all[r.Intn(len(all))]
+		g := fresh(2, 2, 5, "x")
+		in := c.file("ref.nw", s.text()+"\n")
+		gf := c.file("graft.nw", g.text()+"\n")
+		c.editEvent2(tw, label, s.text(), "GraftTreeOnTip", map[string]interface{}{"tip": tip},
+			[]string{"graft", "-i", in, "-c", gf, "-l", tip}, project(mustParse(g.text()), ProjOpt{}), "g", false)
+	case 1: // merge -i a -c b : two rooted trees on disjoint tips
+		gp.Rooted = 1
+		s := genSTree(r, &gp)
+		g := fresh(1, 2, 5, "x")
+		in := c.file("ref.nw", s.text()+"\n")
+		gf := c.file("cmp.nw", g.text()+"\n")
+		c.editEvent2(tw, label, s.text(), "Merge", map[string]interface{}{},
+			[]string{"merge", "-i", in, "-c", gf}, project(mustParse(g.text()), ProjOpt{}), "g", false)
+	case 2: // repopulate -g groups
+		s := genSTree(r, &gp)
+		all := s.tipNames()
+		ng := 1 + r.Intn(2)
+		perm := r.Perm(len(all))
+		groups := [][]string{}
+		var sb strings.Builder
+		k := 0
+		for g := 0; g < ng; g++ {
+			grp := []string{}
+			for i, n := 0, 1+r.Intn(2); i < n; i++ {
+				k++
+				grp = append(grp, fmt.Sprintf("i%d", k))
+			}
+			pos := r.Intn(len(grp) + 1)
+			grp = append(grp[:pos], append([]string{all[perm[g]]}, grp[pos:]...)...)
+			groups = append(groups, grp)
+			sb.WriteString(strings.Join(grp, ",") + "\n")
+		}
+		gfile := c.file("groups.txt", sb.String())
+		c.editEvent(tw, label, ProjOpt{}, s.text(), "InsertIdenticalTips", map[string]interface{}{"groups": groups},
+			[]string{"repopulate", "-g", gfile}, nil)
+	case 3: // collapse single on a tree with chains of single-child nodes
+		gp.PSingle = 0.3
+		s := genSTree(r, &gp)
+		c.editEvent(tw, label, ProjOpt{}, s.text(), "RemoveSingleNodes", map[string]interface{}{}, []string{"collapse", "single"}, nil)
+	default: // subtree -n <inner node name>
+		gp.InnerNames = 0.8
+		gp.SupMode = 0
+		s := genSTree(r, &gp)
+		p := project(mustParse(s.text()), ProjOpt{})
+		var ids []int
+		for _, id := range p.innerIds() {
+			if p.N[id-1].Nm != "" && id != p.Root {
+				ids = append(ids, id)
+			}
+		}
+		if len(ids) == 0 {
+			return
+		}
+		id := ids[r.Intn(len(ids))]
+		in := c.file("in.nw", s.text()+"\n")
+		c.editEvent2(tw, label, s.text(), "SubTree", map[string]interface{}{"node": id},
+			[]string{"subtree", "-i", in, "-n", "^" + p.N[id-1].Nm + "$"}, nil, "b", true)
+	}
+}
+
 func cliEdit(c *cliEnv, r *rand.Rand, tw *TraceWriter, prop, label string, maxT int) {
+	if prop == "C15" {
+		cliC15(c, r, tw, label, maxT)
+		return
+	}
 	gp := defaultGen()
 	gp.MinTips, gp.MaxTips = 4, maxT
 	gp.InnerNames = 0
@@ -850,7 +961,7 @@ func init() {
 		}
 		defer os.RemoveAll(dir)
 		c := &cliEnv{bin: *bin, dir: dir}
-		edit := map[string]bool{"C05": true, "C06": true, "C07": true, "C17": true}[*prop]
+		edit := map[string]bool{"C05": true, "C06": true, "C07": true, "C17": true, "C15": true}[*prop]
 		var tw *TraceWriter
 		var cw *CalcWriter
 		if edit {
